@@ -15,6 +15,7 @@ package standard
 //@ spec func validDuty(d *attester.Duty) bool = d != nil && len(d.committeeIndices) == len(d.validatorIndices) && len(d.validatorCommitteeIndices) == len(d.validatorIndices) && d.committeeLengths != nil && (forall j int :: 0 <= j && j < len(d.validatorIndices) ==> pos(d, d.validatorIndices[j]) == j)
 //@
 //@ func (*Service).validateAttestationData
+//@   lockfree
 //@   requires s != nil && duty != nil && attestationData != nil
 //@   requires attestationData.Source != nil && attestationData.Target != nil
 //@   requires s.slotsPerEpoch > 0
@@ -27,7 +28,7 @@ package standard
 //@ spec func epochOf(slot phase0.Slot) phase0.Epoch
 //@
 //@ func (*Service).fetchValidatorIndices
-//@   requires s != nil && s.chainTime != nil && s.attested != nil && unheld(s.attestedMu)
+//@   requires s != nil && s.chainTime != nil && s.attested != nil && nolocks()
 //@   requires validDuty(duty)
 //@   assumes call SlotToEpoch (e): e == epochOf(arg0)
 //@   loop 1
@@ -76,7 +77,7 @@ package standard
 //@   at call SignBeaconAttestations#1: assert arg7 == arg2 / s.slotsPerEpoch && arg5 <= arg7
 //@
 //@ func (*Service).Attest
-//@   requires s != nil && s.chainTime != nil && s.attested != nil && unheld(s.attestedMu) && s.slotsPerEpoch > 0
+//@   requires s != nil && s.chainTime != nil && s.attested != nil && nolocks() && s.slotsPerEpoch > 0
 //@   requires s.attestationDataProvider != nil && s.validatingAccountsProvider != nil && s.beaconAttestationsSigner != nil && s.attestationsSubmitter != nil
 //@   requires validDuty(duty) && len(duty.committeeIndices) > 0
 //@   assumes call AttestationData#1 (resp, err): err == nil ==> resp != nil && resp.Data != nil && resp.Data.Source != nil && resp.Data.Target != nil
